@@ -3,15 +3,22 @@ SPEC = {
     'engine': 'hb', 'harness': 'hb.cpp',
     'repo_srcs': ['N2kMsg.cpp', 'N2kStream.cpp', 'N2kMessages.cpp', 'N2kTimer.cpp', 'N2kGroupFunction.cpp', 'N2kGroupFunctionDefaultHandlers.cpp', 'NMEA2000.cpp', 'N2kDeviceList.cpp'],
     'variants': ['', 't32'],
-    'lean_modules': ['N2k.Props.C13'], 'props_files': ['N2k/Props/C13.lean'],
+    'lean_modules': ['N2k.Props.C13', 'N2k.Gen.TimePrimitives'], 'props_files': ['N2k/Props/C13.lean'],
     'translators': ['pgn_tables', 'time_sites'],
     'case_start': ['scenario', 'devlist', 'probe'],
     'oracle_prefixes': ['C13:'],
     'trusted_base': ["Basic/Time.lean transcribes N2kIsTimeBefore, N2kHasElapsed and tN2kScheduler (32-bit and 64-bit flavour) of N2kTimer.h; "
                      "Model/Heartbeat.lean: tN2kSyncScheduler and the N2kMillis64() roll counter of N2kTimer.cpp",
-                     "structural obligation: tools/translators/time_sites.py lists every read of N2kMillis()/N2kMillis64()/millis() and every "
-                     "raw comparison or subtraction on a time-typed field in src/ and requires the list to equal the committed, reviewed "
-                     "whitelist tools/translators/time_sites_whitelist.json (a new raw comparison is a broken obligation)",
+                     "structural obligation (tools/translators/time_sites.py): outside N2kTimer.h/.cpp every relational / + / - operation on a time value and "
+                     "every integer constant assigned to a time stamp is a site keyed by (file, enclosing function, operator class, time classes involved; "
+                     "locals inherit the class of what they copy) and must be on the reviewed whitelist tools/translators/time_sites_whitelist.json - "
+                     "as of /repo f104fb3 only four never-read constant stamps; clock reads that are merely stored or passed to a primitive are not sites. "
+                     "The site finder is a token-level heuristic (no C++ front end)",
+                     "behavioural obligation for the primitives: N2kTimer.h/.cpp are compiled in both timer flavours with a controllable clock, "
+                     "N2kIsTimeBefore, N2kHasElapsed, tN2kScheduler::FromNow/IsTime (32 and 64 bit), tN2kSyncScheduler::UpdateNextTime/IsTime/"
+                     "SetSyncOffset and the N2kMillis64 roll counter are evaluated on ~9300 points (grid around 0, 2^31, 2^32, 2^64, the sentinel; random "
+                     "points from a fixed seed) and lean/N2k/Gen/TimePrimitives.lean states that the Lean definitions give exactly these values; the "
+                     "agreement is proved by kernel evaluation (`decide`), the table is small enough for the kernel (no external comparison is trusted)",
                      "machines covered by shift theorems: send path, Open(), address-claim timer, heartbeat (run level, C13_shift_invariance_partial); "
                      "reassembly-slot ageing of Model/Rx.lean (C13_shift_invariance_rx, run level, unconditional); ISO-TP sender/receiver timers, BAM pacing "
                      "and the node's pending information of Model/TP.lean (C13_shift_invariance_tp); pending-information retries of Model/IsoRequest.lean "
